@@ -108,6 +108,19 @@ def two_roll(chk, rng, name, kw, g):
         chk.cov['evaluations'] += 1
         if abs(float(rp.out_profile.width) - uw) > 1e-12 * uw:
             return chk.fail('default-width', f"{name}: without a prescribed width the outgoing profile is {float(rp.out_profile.width)!r} wide, the usable width is {uw!r}", data)
+        # ... also when the pass carries a target (a planning value, not a prescription for the outgoing profile)
+        for tkw in ({'target_filling_ratio': 0.9}, {'target_width': 0.8 * uw}, {'target_cross_section_filling_ratio': 0.85}):
+            rpt = make_pass(TwoRollPass, g, gap, size * 5)
+            for k_, v_ in tkw.items():
+                setattr(rpt, k_, v_)
+            chk.cov['evaluations'] += 1
+            try:
+                wt = float(rpt.out_profile.width)
+            except Exception as e:      # noqa
+                return chk.fail('default-width', f"{name}: with {tkw} on the pass the default width cannot be read ({type(e).__name__})", dict(data, target=tkw))
+            if abs(wt - uw) > 1e-12 * uw:
+                return chk.fail('default-width', f"{name}: with {tkw} on the pass and no prescribed width the outgoing profile is {wt!r} wide, the usable width is {uw!r}",
+                                dict(data, target=tkw))
         for label, w in widths_for(uw, wc, rng):
             if gap == 0.0 and w > uw:
                 continue        # with closed rolls the faces touch: there is no opening beside the groove to over-fill into
